@@ -113,6 +113,8 @@ def _conc_nonfinite(x):
 
 def arith(op, a, b):
     a, b = norm_num(force(a)), norm_num(force(b))
+    if isinstance(a, Opaque) or isinstance(b, Opaque):
+        return Opaque('arithmetic on an opaque library value')
     if is_concrete_num(a) and is_concrete_num(b):
         return _concrete_arith(op, a, b)
     if not (isinstance(a, (SNum,)) or is_concrete_num(a)) or not (isinstance(b, SNum) or is_concrete_num(b)):
@@ -221,6 +223,8 @@ def _concrete_arith(op, a, b):
 
 def neg(a):
     a = norm_num(force(a))
+    if isinstance(a, Opaque):
+        return a
     if is_concrete_num(a):
         return -a
     if isinstance(a, SNum):
@@ -426,8 +430,14 @@ def eq_value(a, b):
     from .abstract import AList, abstract_eq
     if isinstance(a, AList) or isinstance(b, AList):
         return abstract_eq(a, b)
+    from .values import AbstractCall
+    if isinstance(a, AbstractCall) or isinstance(b, AbstractCall):
+        if not (isinstance(a, AbstractCall) and isinstance(b, AbstractCall)) or a.name != b.name or set(a.args) != set(b.args):
+            return False
+        return s_and(*[eq_value(a.args[k], b.args[k]) for k in a.args])
     if isinstance(a, Opaque) or isinstance(b, Opaque):
-        raise OutOfSubset('equality on opaque value')
+        # a comparison involving an unmodelled library value has an unknown outcome: an unconstrained symbolic boolean
+        return SBool(z3.Bool(CTX.fresh('opaque.eq')))
     if type(a) != type(b):
         return False
     return a is b
